@@ -10,12 +10,13 @@ from props.c10 import atom_line, table_json, nprng, rand_rot
 ID = 'C18'
 LEVEL = 'proof'
 CLUSTER = 'D'
-GEN_UNITS = ['rodrigues', 'align', 'rotate', 'align_glue', 'transform_glue']
+GEN_UNITS = ['rodrigues', 'align', 'rotate', 'align_glue', 'transform_glue', '_align_along_axis', 'get_rotation_angle']
 PIN_TARGETS = ['PdbVerif.Pins.D']
 RULE = ('structures of 8-40 atoms whose selected atoms form an anisotropic cloud with eigenvalue-gap ratio >= 1.05 at the relevant '
         'extreme (gaps from 1.05 to 50), the principal direction placed on a spherical grid of orientations (poles, coordinate axes and '
-        'negative directions included) x axis in {x,y,z} (align, largest variance) / plane in {xy,xz,yz} (align_interface, least '
-        'variance of the contact atoms of a two-chain slab) x selections (all, one chain, atom name) x export on/off x object / file '
+        'negative directions included, plus directions tilted by 0, 0.5, 1, 2, 4 mrad from each target axis) x axis in {x,y,z} (align, largest variance) / plane in {xy,xz,yz} (align_interface, least '
+        'variance of the contact atoms of a two-chain slab) x selections (all, one chain, atom name; selections of exactly 2, 3 and 4 atoms '
+        '- backbone atoms of one residue, the only CA atoms - and interfaces with exactly 3 and 4 contact atoms) x export on/off x object / file '
         'input. The real call runs in a scratch working directory; the (vector, phi, theta) the real code derived are recorded and '
         'handed to the Lean model; the resulting table is judged by the Lean Spec certificate (principal direction, one rigid rotation '
         'about the centroid, nothing but coordinates changed) and principal directions are recomputed with np.linalg.eigh. A case is '
@@ -120,6 +121,16 @@ def build_flat_case(rng, g, axis, phi, gap, rod=False):
             'family': 'align-flat'}
 
 
+def rot_to_z(d):
+    """rotation matrix R with R d = e_z (d a unit vector)"""
+    a = np.cross(d, [0, 0, 1.0]); sn = np.linalg.norm(a)
+    if sn < 1e-12:
+        return np.eye(3) if d[2] > 0 else np.diag([1.0, -1.0, -1.0])
+    a /= sn; ang = math.atan2(sn, d[2])
+    K = np.array([[0, -a[2], a[1]], [a[2], 0, -a[0]], [-a[1], a[0], 0]])
+    return np.eye(3) + math.sin(ang) * K + (1 - math.cos(ang)) * K @ K
+
+
 def contact_mask(X, chains, cutoff):
     X = np.asarray(X, float)
     A = [i for i, c in enumerate(chains) if c == 'A']; B = [i for i, c in enumerate(chains) if c == 'B']
@@ -146,8 +157,16 @@ def build_interface_case(rng, g, plane, export, source, theta, phi, gap):
         farB = np.column_stack([g.uniform(-9, 9, 4), g.uniform(-9, 9, 4), g.uniform(-25, -14, 4)])
         X = np.vstack([nearA, farA, nearB, farB])
         chains = ['A'] * (n + 4) + ['B'] * (n + 4)
-        X = np.round(orient_to(X - X.mean(0), theta, phi, g) + g.uniform(-10, 10, size=3), 3)
+        m0 = contact_mask(X, chains, cutoff)
+        if m0 is None or sum(m0) < 4:
+            continue
+        Xc = X[np.array(m0)]
+        w0, V0 = np.linalg.eigh(np.cov((Xc - Xc.mean(0)).T))
+        X = (X - X.mean(0)) @ rot_to_z(V0[:, 0]).T          # the least-variance direction of the contact atoms is now exactly e_z
+        X = np.round(orient_to(X, theta, phi, g) + g.uniform(-10, 10, size=3), 3)
         mask = contact_mask(X, chains, cutoff)
+        if mask != m0:
+            continue
         if mask is None or sum(mask) < 4:
             continue
         if gap_ratio(X[np.array(mask)], least=True) >= 1.05:
@@ -161,6 +180,138 @@ def build_interface_case(rng, g, plane, export, source, theta, phi, gap):
     return {'op': 'align', 'func': 'align_interface', 'lines': lines, 'mask': mask, 'axis': {'xy': 'z', 'xz': 'y', 'yz': 'x'}[plane],
             'plane': plane, 'kwargs': kwargs, 'selkind': 'contacts', 'export': export, 'source': source, 'least': True,
             'theta': theta, 'phi': phi, 'gap': float(gap_ratio(X[np.array(mask)], least=True)), 'family': 'align_interface'}
+
+
+def direction_angles(axis, delta, g, sign=1.0):
+    """spherical angles of the unit vector tilted by `delta` rad from sign*e_axis towards a random perpendicular direction"""
+    e = np.eye(3)['xyz'.index(axis)] * sign
+    p = np.cross(e, g.normal(size=3)); p /= np.linalg.norm(p)
+    d = math.cos(delta) * e + math.sin(delta) * p
+    return math.acos(max(-1.0, min(1.0, d[2]))), math.atan2(d[1], d[0])
+
+
+def build_tilted_case(rng, g, axis, delta, least, export=False):
+    """principal direction within a few mrad of the target axis (or, to rounding of the coordinates, on it): an implementation
+    that decides 'already aligned' with a loose tolerance leaves it there; the 1e-6 parallelism tolerance does not"""
+    theta, phi = direction_angles(axis, delta, g, rng.choice([1.0, -1.0]))
+    if least:
+        plane = {'z': 'xy', 'y': 'xz', 'x': 'yz'}[axis]
+        c = build_interface_case(rng, g, plane, export, 'object', theta, phi, rng.choice([4.0, 12.0]))
+    else:
+        c = build_align_case(rng, g, axis, rng.choice(['all', 'chain', 'name']), export, 'object', theta, phi, rng.choice([5.0, 50.0]))
+    c['family'] = c['family'] + '-tilted'
+    c['tilt'] = delta
+    return c
+
+
+def small_cloud(g, k, least):
+    """k = 2, 3 or 4 points with a well-separated extreme principal direction along e_z (gap >= 1.5; a triangle is elongated)"""
+    for _ in range(1000):
+        if least:
+            X = g.normal(size=(k, 3)) * np.array([4.0, 3.0, 0.6 if k > 3 else 1.0])
+        else:
+            X = g.normal(size=(k, 3)) * np.array([1.0, 1.5, 5.0])
+        X = X - X.mean(0)
+        w, V = np.linalg.eigh(np.cov(X.T))
+        if least:
+            if k == 3 and w[1] < 0.5:            # a degenerate (nearly collinear) triangle has no well-defined normal
+                continue
+            if k > 3 and w[1] / max(w[0], 1e-300) < 1.5:
+                continue
+            d = V[:, 0]
+        else:
+            if w[1] > 1e-12 and w[2] / w[1] < 1.5:
+                continue
+            d = V[:, 2]
+        return X @ rot_to_z(d).T                  # the extreme principal direction is now e_z
+    raise RuntimeError('small cloud')
+
+
+def small_gap(X, least):
+    w = np.linalg.eigvalsh(np.cov((X - X.mean(0)).T))
+    lo, hi = (w[0], w[1]) if least else (w[1], w[2])
+    return float(min(1e9, hi / lo)) if lo > 1e-9 * max(w[2], 1e-300) else 1e9
+
+
+def build_small_align_case(rng, g, axis, k, how, theta, phi):
+    """the selection consists of EXACTLY k atoms (k = 3: N, CA, C of one residue, or the only three CA atoms); the rest of the
+    structure is an unrelated blob that must move along rigidly"""
+    for _ in range(200):
+        Xs = np.round(orient_to(small_cloud(g, k, False), theta, phi, g) + g.uniform(-15, 15, size=3), 3)
+        if small_gap(Xs, False) >= 1.3:
+            break
+    m = rng.choice([5, 9, 14])
+    Xo = np.round(g.normal(size=(m, 3)) * g.uniform(2, 8, size=3) + g.uniform(-15, 15, size=3), 3)
+    lines, mask = [], []
+    selres = 7
+    if how == 'residue':                                   # resSeq=7, name=[N, CA, C, ...]: the k backbone atoms of one residue
+        names = [' N  ', ' CA ', ' C  ', ' O  '][:k]
+        rows = [(x, False, rng.choice(['A', 'B']), rng.choice([' N  ', ' CA ', ' C  ', ' O  ', ' CB ']), 1 + i // 4 if 1 + i // 4 != selres else 20 + i)
+                for i, x in enumerate(Xo)]
+        # other atoms of the selected residue that are NOT among the selected names
+        rows += [(Xo[0] + 1.0, False, 'A', ' CB ', selres)]
+        rows += [(x, True, 'A', names[i], selres) for i, x in enumerate(Xs)]
+        kwargs = {'resSeq': selres, 'name': [nm.strip() for nm in names]}
+    else:                                                  # exactly k CA atoms in the structure
+        rows = [(x, False, rng.choice(['A', 'B']), rng.choice([' N  ', ' C  ', ' O  ']), 1 + i // 3) for i, x in enumerate(Xo)]
+        rows += [(x, True, rng.choice(['A', 'B']), ' CA ', 30 + i) for i, x in enumerate(Xs)]
+        kwargs = {'name': 'CA'}
+    rng.shuffle(rows)
+    for i, (x, insel, chain, name, res) in enumerate(rows):
+        lines.append(atom_line(i + 1, name, 'ALA', chain, res, x[0], x[1], x[2], temp=round(rng.uniform(0, 60), 2)))
+        mask.append(insel)
+    return {'op': 'align', 'func': 'align', 'lines': lines, 'mask': mask, 'axis': axis, 'kwargs': kwargs, 'selkind': f'{how}{k}',
+            'export': False, 'source': 'object', 'least': False, 'theta': theta, 'phi': phi, 'gap': small_gap(Xs, False),
+            'family': f'align-{k}atoms'}
+
+
+def build_small_interface_case(rng, g, plane, k, theta, phi):
+    """an interface with EXACTLY k contact atoms (k = 3 or 4) under a small cutoff; every other atom is far from the other chain"""
+    cutoff = 4.0
+    for _ in range(2000):
+        C = small_cloud(g, k, True)
+        C = C * (2.5 / max(1e-9, np.max(np.linalg.norm(C[:, None] - C[None], axis=2))))      # all mutual distances <= 2.5 A
+        chains_c = ['A', 'B', 'A', 'B'][:k] if k == 4 else rng.choice([['A', 'A', 'B'], ['A', 'B', 'B']])
+        farA = np.column_stack([g.uniform(-6, 6, 5), g.uniform(-6, 6, 5), g.uniform(25, 40, 5)])
+        farB = np.column_stack([g.uniform(-6, 6, 5), g.uniform(-6, 6, 5), g.uniform(-40, -25, 5)])
+        X = np.vstack([C, farA, farB])
+        chains = list(chains_c) + ['A'] * 5 + ['B'] * 5
+        X = np.round(orient_to(X - C.mean(0), theta, phi, g) + g.uniform(-10, 10, size=3), 3)
+        mask = contact_mask(X, chains, cutoff)
+        if mask is None or mask != [True] * k + [False] * 10:
+            continue
+        if small_gap(X[:k], True) >= 1.3 and (k > 3 or np.linalg.eigvalsh(np.cov((X[:k] - X[:k].mean(0)).T))[1] > 0.05):
+            break
+    else:
+        raise RuntimeError('small interface')
+    order = list(range(len(X))); rng.shuffle(order)
+    lines = [atom_line(i + 1, rng.choice([' CA ', ' C  ', ' N  ']), 'ALA', chains[j], 1 + i // 3, *X[j], temp=round(rng.uniform(0, 60), 2))
+             for i, j in enumerate(order)]
+    mask = [mask[j] for j in order]
+    return {'op': 'align', 'func': 'align_interface', 'lines': lines, 'mask': mask, 'axis': {'xy': 'z', 'xz': 'y', 'yz': 'x'}[plane],
+            'plane': plane, 'kwargs': {'cutoff': cutoff}, 'selkind': f'contacts{k}', 'export': False, 'source': 'object', 'least': True,
+            'theta': theta, 'phi': phi, 'gap': small_gap(X[:k], True), 'family': f'align_interface-{k}contacts'}
+
+
+def extra_families(ctx, rng, g, reps_tilt, reps_small):
+    out = []
+    for rep in range(reps_tilt):
+        for axis in ('x', 'y', 'z'):
+            for delta in (0.0, 5e-4, 1e-3, 2e-3, 4e-3):
+                out.append(build_tilted_case(rng, g, axis, delta, least=False))
+                if rep % 2 == 0:
+                    out.append(build_tilted_case(rng, g, axis, delta, least=True))
+    for rep in range(reps_small):
+        for axis in ('x', 'y', 'z'):
+            for k in (2, 3, 4):
+                for how in ('residue', 'ca'):
+                    theta, phi = math.acos(rng.uniform(-1, 1)), rng.uniform(-math.pi, math.pi)
+                    out.append(build_small_align_case(rng, g, axis, k, how, theta, phi))
+        for plane in ('xy', 'xz', 'yz'):
+            for k in (3, 4):
+                theta, phi = math.acos(rng.uniform(-1, 1)), rng.uniform(-math.pi, math.pi)
+                out.append(build_small_interface_case(rng, g, plane, k, theta, phi))
+    return out
 
 
 def cases(ctx):
@@ -196,6 +347,7 @@ def cases(ctx):
     for kf in range(ctx.scale(6, 60)):
         for axis in ('x', 'y', 'z'):
             out.append(build_flat_case(rng, g, axis, rng.uniform(-math.pi, math.pi), rng.choice([1.5, 4.0]), rod=(kf % 3 == 0)))
+    out += extra_families(ctx, rng, g, ctx.scale(2, 12), ctx.scale(2, 15))
     out.append({'op': 'align_axis', 'axis': 'w', 'lines': build_align_case(rng, g, 'x', 'all', False, 'object', 1.0, 1.0, 3.0)['lines'], 'family': 'bad-axis'})
     return out
 
@@ -212,6 +364,7 @@ def search_cases(ctx):
     for k in range(ctx.scale(12, 60)):
         for axis in ('x', 'y', 'z'):
             out.append(build_flat_case(rng, g, axis, rng.uniform(-math.pi, math.pi), rng.choice([1.5, 4.0]), rod=(k % 3 == 0)))
+    out += extra_families(ctx, rng, g, ctx.scale(2, 8), ctx.scale(2, 8))
     return out
 
 
@@ -220,7 +373,20 @@ def search_cases(ctx):
 # ----------------------------------------------------------------------------------------------
 
 def impl(ctx, c):
+    """total: whatever the implementation (or the recording) does, a canonical value comes back; anything unexpected is an
+    'error' value that disagrees with Model and Spec and so yields a verdict, never a harness crash"""
     c.pop('obs', None)
+    cwd = os.getcwd()
+    try:
+        return impl_inner(ctx, c)
+    except Exception as e:
+        c.setdefault('obs', {})
+        return {'error': 'ERR:Unexpected:' + type(e).__name__, 'message': str(e)[:200]}
+    finally:
+        os.chdir(cwd)
+
+
+def impl_inner(ctx, c):
     if c['op'] == 'align_axis':
         db = pdb2sql(c['lines'])
         c['obs'] = {'db': table_json(db.get('*'))}
@@ -231,67 +397,80 @@ def impl(ctx, c):
         return {'table': table_json(db.get('*'))}
     work = os.path.join(ctx.tmpdir(), 'cwd_%d' % id(c))
     os.makedirs(work, exist_ok=True)
-    cwd = os.getcwd()
     rec = {}
     gra0 = AL.get_rotation_angle
 
     def gra(v):
         r = gra0(v)
-        rec['v'], rec['angles'] = np.array(v, float), (float(r[0]), float(r[1]))
+        try:
+            rec['v'], rec['angles'] = np.array(v, float).reshape(3), (float(r[0]), float(r[1]))
+        except Exception:
+            pass
         return r
     os.chdir(work)
+    cls = interface if c['func'] == 'align_interface' else pdb2sql
+    if c['source'] == 'file':
+        with open('mol1.pdb', 'w') as f:
+            f.write('\n'.join(c['lines']) + '\n')
+        src = 'mol1.pdb'
+        ref = cls(c['lines'])
+    else:
+        src = cls(c['lines'])
+        ref = src
+    before = ref.get('*')
+    c['obs'] = {'db': table_json(before)}
+    files0 = set(os.listdir('.'))
+    AL.get_rotation_angle = gra
     try:
-        cls = interface if c['func'] == 'align_interface' else pdb2sql
-        if c['source'] == 'file':
-            with open('mol1.pdb', 'w') as f:
-                f.write('\n'.join(c['lines']) + '\n')
-            src = 'mol1.pdb'
-            ref = cls(c['lines'])
+        if c['func'] == 'align':
+            sql = AL.align(src, axis=c['axis'], export=c['export'], **c['kwargs'])
         else:
-            src = cls(c['lines'])
-            ref = src
-        before = ref.get('*')
-        files0 = set(os.listdir('.'))
-        AL.get_rotation_angle = gra
-        try:
-            if c['func'] == 'align':
-                sql = AL.align(src, axis=c['axis'], export=c['export'], **c['kwargs'])
-            else:
-                sql = AL.align_interface(src, plane=c['plane'], export=c['export'], **c['kwargs'])
-        except Exception as e:
-            c['obs'] = {'db': table_json(before)}
-            return {'error': exc_tag(e), 'message': str(e)[:200]}
-        finally:
-            AL.get_rotation_angle = gra0
-        new_files = sorted(set(os.listdir('.')) - files0)
-        after = sql.get('*')
+            sql = AL.align_interface(src, plane=c['plane'], export=c['export'], **c['kwargs'])
+    except Exception as e:
+        return {'error': exc_tag(e), 'message': str(e)[:200]}
     finally:
-        os.chdir(cwd)
-    phi, theta = rec['angles']
-    v = rec['v']
-    c['obs'] = {'db': table_json(before), 'out': table_json(after), 'v': [rat(x) for x in v], 'r': rat(float(np.linalg.norm(v))),
-                'cp': rat(float(np.cos(phi))), 'sp': rat(float(np.sin(phi))), 'ct': rat(float(np.cos(theta))), 'st': rat(float(np.sin(theta)))}
+        AL.get_rotation_angle = gra0
+    new_files = sorted(set(os.listdir('.')) - files0)
+    try:
+        after = sql.get('*')
+        out_table = table_json(after)
+    except Exception as e:
+        return {'error': 'ERR:Unexpected:return-value', 'message': f'{type(sql).__name__}: {e}'[:200]}
+    c['obs']['out'] = out_table
+    res = {'table': out_table, 'new_files': new_files, 'recorded': 'angles' in rec}
+    if 'angles' in rec:
+        phi, theta = rec['angles']
+        v = rec['v']
+        c['obs'].update({'v': [rat(x) for x in v], 'r': rat(float(np.linalg.norm(v))),
+                         'cp': rat(float(np.cos(phi))), 'sp': rat(float(np.sin(phi))),
+                         'ct': rat(float(np.cos(theta))), 'st': rat(float(np.sin(theta)))})
     # independent recomputation of the principal direction of the selected atoms after the call
-    Xa = np.array([r[7:10] for r, m in zip(after, c['mask']) if m], float)
-    w, V = np.linalg.eigh(np.cov((Xa - Xa.mean(0)).T))
-    d = V[:, 0] if c['least'] else V[:, 2]
     e = np.eye(3)['xyz'.index(c['axis'])]
-    sin_angle = float(np.linalg.norm(np.cross(d, e)))
+    try:
+        Xa = np.array([r[7:10] for r, m in zip(after, c['mask']) if m], float)
+        w, V = np.linalg.eigh(np.cov((Xa - Xa.mean(0)).T))
+        d = V[:, 0] if c['least'] else V[:, 2]
+        res['sin_angle_to_axis'] = float(np.linalg.norm(np.cross(d, e)))
+    except Exception:
+        res['sin_angle_to_axis'] = 2.0
     # the vector the code aligned must be the extreme principal direction of the selection before the call
-    Xb = np.array([r[7:10] for r, m in zip(before, c['mask']) if m], float)
-    wb, Vb = np.linalg.eigh(np.cov((Xb - Xb.mean(0)).T))
-    db_ = Vb[:, 0] if c['least'] else Vb[:, 2]
-    return {'table': table_json(after), 'new_files': new_files, 'sin_angle_to_axis': sin_angle,
-            'vector_is_principal': float(np.linalg.norm(np.cross(db_, v / np.linalg.norm(v)))),
-            'gap_after': float(w[1] / w[0] if c['least'] else w[2] / w[1])}
+    try:
+        Xb = np.array([r[7:10] for r, m in zip(before, c['mask']) if m], float)
+        wb, Vb = np.linalg.eigh(np.cov((Xb - Xb.mean(0)).T))
+        db_ = Vb[:, 0] if c['least'] else Vb[:, 2]
+        res['vector_is_principal'] = float(np.linalg.norm(np.cross(db_, rec['v'] / np.linalg.norm(rec['v'])))) if 'v' in rec else 2.0
+    except Exception:
+        res['vector_is_principal'] = 2.0
+    return res
 
 
 def driver_line(c):
+    obs = c.get('obs') or {}
     if c['op'] == 'align_axis':
-        return {'op': 'align_axis', 'axis': c['axis'], 'db': c['obs']['db']}
-    d = {'op': 'align', 'axis': c['axis'], 'sel': c['mask'], 'least': c['least']}
-    d.update(c.get('obs', {}))
-    if 'v' not in d:                       # the implementation raised: nothing to hand to the model
+        return {'op': 'align_axis', 'axis': c['axis'], 'db': obs.get('db', [])}
+    d = {'op': 'align', 'axis': c['axis'], 'sel': c['mask'], 'least': c['least'], 'db': []}
+    d.update(obs)
+    if 'v' not in d:                       # nothing was recorded (the implementation raised, or never computed the angles)
         d.update({'v': ['0/1'] * 3, 'r': '1/1', 'cp': '1/1', 'sp': '0/1', 'ct': '1/1', 'st': '0/1'})
     return d
 
@@ -300,6 +479,18 @@ def driver_line(c):
 # comparison
 # ----------------------------------------------------------------------------------------------
 
+def total(f):
+    """a comparison never raises: what it cannot make sense of is a disagreement"""
+    def g(c, out, other):
+        try:
+            return f(c, out, other)
+        except Exception as e:
+            return f'comparison impossible ({type(e).__name__}: {e}); implementation output {str(out)[:120]}'
+    g.__name__ = f.__name__
+    return g
+
+
+@total
 def agree_model(c, out, model):
     if c['op'] == 'align_axis':
         m = model['table']
@@ -311,6 +502,8 @@ def agree_model(c, out, model):
     m = model['table']
     if isinstance(m, str):
         return f'model {m!r}, implementation returned a table'
+    if not out.get('recorded'):
+        return 'the implementation returned without computing the rotation angles of the principal vector (get_rotation_angle was never called)'
     if model['nsel'] != sum(c['mask']):
         return 'selection mask inconsistent'
     if unrat(model['spherical']) > Fraction(1, 10**9):
@@ -328,6 +521,7 @@ def agree_model(c, out, model):
     return True
 
 
+@total
 def agree_spec(c, out, spec):
     if c['op'] == 'align_axis':
         if 'error' in out:
@@ -336,8 +530,10 @@ def agree_spec(c, out, spec):
     if 'error' in out:
         return f'implementation raised {out["error"]}: {out.get("message")}'
     bad = []
+    if spec is None:
+        return 'the Spec could not be evaluated on the implementation output'
     scale = max([Fraction(1)] + [abs(unrat(r[k])) for r in out['table'] for k in (7, 8, 9)])
-    gap = c['gap']
+    gap = min(c['gap'], 1e6)
     # e is an eigenvector: |S e - lam e| / tr S small relative to the relative gap (direction error ~ defect / gap)
     rel_gap = (gap - 1) / (gap + 2)
     if float(unrat(spec['offAxis'])) > 1e-6 * max(rel_gap, 1e-3) * 0.5:
@@ -346,7 +542,7 @@ def agree_spec(c, out, spec):
         bad.append('the axis is an eigen-direction but not the extreme one')
     if out['sin_angle_to_axis'] > 1e-6:
         bad.append(f'independent eigh: angle to the axis {out["sin_angle_to_axis"]:.3e}')
-    if out['vector_is_principal'] > 1e-6:
+    if out.get('recorded') and out['vector_is_principal'] > 1e-6:
         bad.append('the vector handed to the alignment is not the extreme principal direction of the selection')
     if unrat(spec['centroidShift']) > TOL * scale:
         bad.append('the centroid of the structure moved')
@@ -368,6 +564,8 @@ def nontrivial_key(c, out):
     if c['op'] == 'align_axis':
         return ['bad-axis']
     cell = (round(c['theta'] / (math.pi / 6)), round(c['phi'] / (math.pi / 4)))
+    if 'tilt' in c:
+        cell = ('tilt', c['tilt'])
     gb = 0 if c['gap'] < 1.2 else 1 if c['gap'] < 3 else 2
     return [c['func'], c.get('plane', c['axis']), c['selkind'], c['export'], c['source'], cell, gb]
 
